@@ -35,6 +35,9 @@ def check(run):
              'extreme expired, with >= / <= (most recent wins), then folds in the current element')
     for cfg in configs(run):
         F = run.facts(cfg)
+        # helpers this property stands on (rule sets owned by other properties, see common.deps)
+        from common import deps as _deps
+        _deps(run, F, 'drivers', 'isnone', 'accessors', 'casts')
         ks = {k.name: k for k in find_kernels(F) if k.fn.file.endswith(('cmp.rs', 'norm.rs'))}
         run.floor('C03', 'kernels in cmp.rs + norm.rs', len(ks), 7)
         models = {}
@@ -65,6 +68,9 @@ def check(run):
         rank_kernel(run, models['ts_vrank_to'])
         zscore(run, models['ts_vzscore_to'])
         minmax(run, models['ts_vminmaxnorm_to'])
+    # every container the generic code can be instantiated with hands out its elements in logical order
+    from common import dep_backends as _dep_backends
+    _dep_backends(run)
     return run.finish(
         'other',
         'Necessary structure of exactness for the 7 kernels of cmp.rs / norm.rs: the cached '
